@@ -109,3 +109,4 @@ pub fn name_simple(g: &Grammar, t: &Tree) -> Vec<Tok> {
     out
 }
 pub mod terms;
+pub mod typed;
